@@ -94,6 +94,24 @@ fn check_arr(arr: &Arr, h: u64, rep: &mut CaseReport, depth: u32) -> bool {
         let b = arr.build();
         let f = table(&*b, h);
         let (items, exhausted) = pull(&mut *b.steps_iter(), h, h as usize + 10);
+        // queries interleaved with a live iterator (and a second live iterator) must neither fail
+        // nor change what the iterator yields
+        let mut it = b.steps_iter();
+        let mut it2 = b.steps_iter();
+        let mut interleaved = vec![];
+        for k in 0..items.len().min(6) {
+            if let Some(x) = it.next() {
+                let _ = b.number_arrivals(x);
+                let _ = b.number_arrivals(Duration::from(u64::from(x) + h));
+                if k % 2 == 0 {
+                    let _ = it2.next();
+                }
+                interleaved.push(u64::from(x));
+            }
+        }
+        if interleaved[..] != items[..interleaved.len()] {
+            panic!("items yielded while queries were interleaved differ: {:?} vs {:?}", interleaved, &items[..interleaved.len()]);
+        }
         (f, items, exhausted)
     });
     match res {
